@@ -17,7 +17,7 @@ Record case := mk_case {
 Definition c_args (c : case) : args := {| a_all := c_all c; a_force := c_force c; a_base := c_base c |}.
 
 Definition one_mismatch (c : case) (r : run) : bool :=
-  run_mismatch (c_args c) (r_world r) (c_gens c) (r_fmt r) (c_before c) (r_after r) (r_trace r) (r_out r).
+  run_mismatch_either (c_args c) (r_world r) (c_gens c) (r_fmt r) (c_before c) (r_after r) (r_trace r) (r_out r).
 
 Definition mismatch (c : case) : bool :=
   existsb (one_mismatch c) (c_together c) || existsb (fun pr => one_mismatch c (snd pr)) (c_singles c).
